@@ -67,6 +67,10 @@ var matchEncoded = os.Getenv("VERIF_MATCH_ENCODED") == "1"
 // VERIF_MATCH_STRICT=1: the routers use StrictLastSlash; the model takes paths literally, which is what strict routers do
 var matchStrict = os.Getenv("VERIF_MATCH_STRICT") == "1"
 
+// VERIF_MATCH_MAY_REJECT=1: the patterns lie outside the documented grammar (capturing groups inside a variable's regex);
+// registration may refuse them (nothing is selected then), but a route that IS accepted must report the right parameters
+var matchMayReject = os.Getenv("VERIF_MATCH_MAY_REJECT") == "1"
+
 func init() {
 	families["match"] = &family{replay: matchReplay, finish: matchFinish}
 }
@@ -234,6 +238,14 @@ func matchRunTable(st *matchState, t matchTable) {
 			func() {
 				defer func() {
 					if rec := recover(); rec != nil {
+						b.routes = append(b.routes, nil)
+						if matchMayReject {
+							st.mu.Lock()
+							st.sum.addInfo("registration_refused", 1)
+							st.mu.Unlock()
+							return
+						}
+						b.routes = b.routes[:len(b.routes)-1]
 						st.report(map[string]any{"kind": "match", "aspect": "registration-panic", "table": texts, "route": texts[i],
 							"what": fmt.Sprintf("registration of %s panicked: %v", texts[i], rec)}, caseDoc)
 						b.routes = append(b.routes, nil)
@@ -330,12 +342,19 @@ func matchRunTable(st *matchState, t matchTable) {
 						}
 						if got == want && b.name == "plain" && !st.hdr.Strict && !matchStrict && !matchEncoded && path != "/" {
 							// the same request spelled with a doubled leading slash or a trailing slash (lookup normalises both away)
-							for _, alt := range []string{"/" + path, path + "/", "//" + path + "//"} {
+							// or with white space around it (every Unicode space is trimmed): same route, same parameters
+							for _, alt := range []string{"/" + path, path + "/", "//" + path + "//", path + " ", path + "\u00a0", "\u2003" + path + "\t", path + "/\u3000"} {
 								var r2 *rux.Route
+								var ps2 rux.Params
 								func() {
 									defer func() { _ = recover() }()
-									r2, _, _ = b.r.Match(m, alt)
+									r2, ps2, _ = b.r.Match(m, alt)
 								}()
+								if r2 == route && route != nil && !paramsEqual(ps2, map[string]string(ps)) {
+									st.report(map[string]any{"kind": "params", "aspect": "params", "table": texts, "method": m, "path": alt, "router": b.name,
+										"what": fmt.Sprintf("%s %q on %v: params %v, but the same request spelled %q has params %v (both normalise to the same path)", m, alt, texts, ps2, path, ps)}, caseDoc)
+									break
+								}
 								if r2 != route {
 									st.report(map[string]any{"kind": "match", "aspect": "selection", "table": texts, "method": m, "path": alt, "router": b.name,
 										"what": fmt.Sprintf("%s %s on %v: selects a different route than the same request spelled %s (route found: %v vs %v)", m, alt, texts, path, r2 != nil, route != nil)}, caseDoc)
@@ -394,7 +413,7 @@ func matchRunTable(st *matchState, t matchTable) {
 		hb := mk("head-first-cache", 1, rux.EnableCaching)
 		for _, h := range t.Hits["GET"] {
 			q, want := h[0], h[1]
-			if want <= 0 || q >= len(st.paths) {
+			if want <= 0 || q >= len(st.paths) || (matchMayReject && hb.routes[want-1] == nil) {
 				continue
 			}
 			allowed := st.mat[t.T[want-1].P][q]
@@ -485,7 +504,7 @@ func matchRunTable(st *matchState, t matchTable) {
 			}
 			for _, h := range t.Hits[m] {
 				q, want := h[0], h[1]
-				if want <= 0 || q >= len(st.paths) {
+				if want <= 0 || q >= len(st.paths) || (matchMayReject && b.routes[want-1] == nil) {
 					continue
 				}
 				path := st.paths[q]
